@@ -539,24 +539,24 @@ theorem corePerm_keyedTail_nil (p : Path) (a : Res) : CorePerm (a ++ keyedTail p
 
 /-! ### keys do not depend on the prefix (no transform) -/
 
-theorem swk_recordKey_path {cfg : Cfg} (htr : cfg.tr = []) (p q : Path) (kvs : List (Str × Val)) :
-    ∀ (fs : List Str) (acc : Str), recordKey cfg p kvs fs acc = recordKey cfg q kvs fs acc
-  | [], acc => by simp [recordKey]
+theorem swk_recordFields_path {cfg : Cfg} (htr : cfg.tr = []) (p q : Path) (kvs : List (Str × Val)) :
+    ∀ (fs : List Str) (acc : List (Str × Val)), recordFields cfg p kvs fs acc = recordFields cfg q kvs fs acc
+  | [], acc => by simp [recordFields]
   | f :: fs, acc => by
-    simp only [recordKey, htr, List.map_nil, xpathMatchFrom]
+    simp only [recordFields, transformAt_noTr htr]
     cases Val.lookup f kvs with
-    | none => exact swk_recordKey_path htr p q kvs fs acc
-    | some v => exact swk_recordKey_path htr p q kvs fs _
+    | none => exact swk_recordFields_path htr p q kvs fs acc
+    | some v => exact swk_recordFields_path htr p q kvs fs _
 
-theorem swk_keyOf_path {cfg : Cfg} (htr : cfg.tr = []) (p q : Path) (x : Val) :
-    keyOf cfg p x = keyOf cfg q x := by
+theorem swk_keyOf_path {cfg : Cfg} (htr : cfg.tr = []) (p q : Path) (i : Nat) (x : Val) :
+    keyOf cfg p i x = keyOf cfg q i x := by
   cases x <;> simp only [keyOf, transformAt_noTr htr]
-  rw [swk_recordKey_path htr p q]
+  rw [swk_recordFields_path htr (p ++ [PSeg.idx i]) (q ++ [PSeg.idx i])]
 
 theorem swk_keysOf_path {cfg : Cfg} (htr : cfg.tr = []) (p q : Path) :
-    ∀ xs : List Val, keysOf cfg p xs = keysOf cfg q xs
-  | [] => rfl
-  | x :: xs => by simp only [keysOf, swk_keyOf_path htr p q x, swk_keysOf_path htr p q xs]
+    ∀ (i : Nat) (xs : List Val), keysOf cfg p i xs = keysOf cfg q i xs
+  | _, [] => rfl
+  | i, x :: xs => by simp only [keysOf, swk_keyOf_path htr p q i x, swk_keysOf_path htr p q (i + 1) xs]
 
 theorem swk_mkEntries_mem : ∀ (ks : List Str) (xs : List Val) (i : Nat), ∀ e ∈ mkEntries i ks xs, e.2.2 ∈ xs
   | [], _, _, e, he => by simp [mkEntries] at he
@@ -663,19 +663,19 @@ theorem swk_sub_list_keyed {cfg : Cfg} (hd : cfg.direct = false) (site : Site) (
     sub cfg site p (.list c xs) (.list c' ys) =
       if excluded cfg p then .ok Res.empty
       else
-        match keysOf cfg p xs with
+        match keysOf cfg p 0 xs with
         | .error e => .error e
         | .ok ks =>
-          match keysOf cfg p ys with
+          match keysOf cfg p 0 ys with
           | .error e => .error e
           | .ok ko =>
             keyedWalk cfg p (.list .n0 xs) (.list .n0 ys) 0 xs ks (mkEntries 0 ks xs) (mkEntries 0 ko ys) := by
   by_cases hex : excluded cfg p = true
   · simp [sub, hd, hex]
-  · cases h1 : keysOf cfg p xs with
+  · cases h1 : keysOf cfg p 0 xs with
     | error e => simp [sub, hd, hex, h1]
     | ok ks =>
-      cases h2 : keysOf cfg p ys with
+      cases h2 : keysOf cfg p 0 ys with
       | error e => simp [sub, hd, hex, h1, h2]
       | ok ko => simp [sub, hd, hex, h1, h2]
 
@@ -692,19 +692,19 @@ theorem swk_list_level (cfg : Cfg) (htr : cfg.tr = []) (hd : cfg.direct = false)
     cases h
     exact ⟨Res.empty, rfl, swv_empty⟩
   rw [if_neg hex] at h ⊢
-  rw [swk_keysOf_path htr (mirrorPath p) p ys, swk_keysOf_path htr (mirrorPath p) p xs]
-  cases hks : keysOf cfg p xs with
+  rw [swk_keysOf_path htr (mirrorPath p) p 0 ys, swk_keysOf_path htr (mirrorPath p) p 0 xs]
+  cases hks : keysOf cfg p 0 xs with
   | error e => rw [hks] at h; cases h
   | ok ks =>
     rw [hks] at h
     simp only at h
-    cases hko : keysOf cfg p ys with
+    cases hko : keysOf cfg p 0 ys with
     | error e => rw [hko] at h; cases h
     | ok ko =>
       rw [hko] at h
       simp only at h ⊢
-      have hl := keysOf_length cfg p xs ks hks
-      have hlo := keysOf_length cfg p ys ko hko
+      have hl := keysOf_length cfg p 0 xs ks hks
+      have hlo := keysOf_length cfg p 0 ys ko hko
       -- forward run as a generic loop
       have h1 := swk_keyedWalk_loopK cfg p (.list .n0 xs) (.list .n0 ys) xs ks 0 [] (mkEntries 0 ko ys) hl
         (by intro e he; cases he)
